@@ -88,3 +88,154 @@ Proof.
     destruct H as [Hch Hfb]. cbn [concat]. apply fb_chain_app; auto.
     rewrite <- Hfb. apply IH. rewrite Hfb. lia.
 Qed.
+
+(* ------------------------------------------------------------------ *)
+(* reachable recorder states keep the arrival-map invariant            *)
+(* ------------------------------------------------------------------ *)
+From IV Require Import Proofs.ArrivalMapProofs.
+
+Inductive reachable (sender : Z) : recorder -> Prop :=
+| reach_init : reachable sender rec_init
+| reach_record r ssrc seq t : reachable sender r -> reachable sender (rec_record r ssrc seq t)
+| reach_build r : reachable sender r -> reachable sender (fst (rec_build sender r)).
+
+Lemma build_loop_map fuel sender : forall r endSN acc,
+  r_map (fst (rec_build_loop fuel sender r endSN acc)) = r_map r.
+Proof.
+  induction fuel as [|fuel IH]; intros r endSN acc; cbn [rec_build_loop]; [reflexivity|].
+  destruct (r_start r) as [s|]; [|reflexivity].
+  destruct (s <? endSN); [|reflexivity].
+  destruct (rec_maybe_build sender r s endSN) as [[ofb start'] fbc'].
+  destruct ofb as [fb|]; [|reflexivity]. rewrite IH. reflexivity.
+Qed.
+
+Lemma build_map sender r : r_map (fst (rec_build sender r)) = r_map r.
+Proof.
+  unfold rec_build. destruct (r_start r); [|reflexivity].
+  pose proof (build_loop_map (S (length (m_ent (r_map r)))) sender r (m_end (r_map r)) []) as H.
+  destruct (rec_build_loop _ _ _ _ _) as [r' ps]. cbn [fst r_map] in *. exact H.
+Qed.
+
+Lemma cull_inv r u t : am_inv (r_map r) -> am_inv (rec_cull r u t).
+Proof.
+  intros H. unfold rec_cull. destruct (r_start r) as [s|]; [|exact H].
+  destruct ((s >=? m_end (r_map r)) && (t >=? 500000)); [apply am_remove_old_inv, H|exact H].
+Qed.
+
+Lemma record_inv r ssrc seq t : am_inv (r_map r) -> am_inv (r_map (rec_record r ssrc seq t)).
+Proof.
+  intros H. unfold rec_record. destruct (unwrap (r_unw r) seq) as [unw u].
+  pose proof (cull_inv r u t H) as Hc.
+  destruct (am_has (rec_cull r u t) u); cbn [r_map]; [exact Hc|apply am_add_inv, Hc].
+Qed.
+
+(* every reachable state: sorted entries inside [begin,end), end - begin <= 2^15 *)
+Theorem reachable_inv sender r : reachable sender r -> am_inv (r_map r).
+Proof.
+  induction 1 as [|r ssrc seq t _ IH|r _ IH].
+  - apply am_inv_empty.
+  - apply record_inv, IH.
+  - rewrite build_map. exact IH.
+Qed.
+
+(* the culling Record performs is, in every reachable state, exactly the loop
+   of RemoveOldPackets as coded *)
+Theorem reachable_cull_go sender r u t : reachable sender r ->
+  rec_cull r u t =
+  match r_start r with
+  | Some s => if (s >=? m_end (r_map r)) && (t >=? 500000)
+              then am_remove_old_go (r_map r) u (t - 500000) else r_map r
+  | None => r_map r
+  end.
+Proof.
+  intros Hr. unfold rec_cull. destruct (r_start r) as [s|]; [|reflexivity].
+  destruct ((s >=? m_end (r_map r)) && (t >=? 500000)) eqn:E; [|reflexivity].
+  symmetry. apply am_remove_old_go_eq; [eapply reachable_inv; eauto|lia].
+Qed.
+
+(* ------------------------------------------------------------------ *)
+(* what one feedback packet of a build covers (composite, per packet)  *)
+(* ------------------------------------------------------------------ *)
+(* statuses of the numbers nextU, nextU+1, ... given the reported
+   (number, symbol) pairs in ascending order: zeros for the gaps *)
+Fixpoint syms_of (nextU : Z) (es : list (Z * Z)) : list Z :=
+  match es with
+  | [] => []
+  | e :: tl => repeat 0 (Z.to_nat (fst e - nextU)) ++ snd e :: syms_of (fst e + 1) tl
+  end.
+
+(* r reports entry e: same number, symbol 1 (small delta) or 2 (large delta) *)
+Definition reports (e r : Z * Z) : Prop := fst r = fst e /\ (snd r = 1 \/ snd r = 2).
+
+Lemma fb_fill_next n : forall f, f_next (fb_fill n f) = (f_next f + Z.of_nat n) mod 65536 \/ (n = 0%nat /\ f_next (fb_fill n f) = f_next f).
+Proof.
+  induction n as [|n IH]; intros f; cbn [fb_fill]; [right; auto|]. left.
+  destruct (IH (fb_fill_step f)) as [H|[Hn H]]; rewrite H.
+  - unfold fb_fill_step. destruct (push_sym _ _). cbn [f_next]. rewrite inc16_add16. unfold add16. lia.
+  - subst n. unfold fb_fill_step. destruct (push_sym _ _). cbn [f_next]. rewrite inc16_add16. unfold add16. lia.
+Qed.
+
+Lemma add_next f seq16 t f' : fb_add_received f seq16 t = Some f' -> 0 <= f_next f < 65536 ->
+  f_next f' = (f_next f + sub16 seq16 (f_next f) + 1) mod 65536.
+Proof.
+  unfold fb_add_received. destruct (_ || _); [discriminate|].
+  pose proof (fb_fill_next (Z.to_nat (sub16 seq16 (f_next f))) f) as Hn.
+  destruct (push_sym _ _). intros H Hr. inversion H; subst f'; clear H. cbn [f_next].
+  rewrite inc16_add16. unfold add16. pose proof (sub16_range seq16 (f_next f)).
+  destruct Hn as [Hn|[Hz Hn]]; rewrite Hn; lia.
+Qed.
+
+Lemma filter_none {A} (p : A -> bool) l : Forall (fun x => p x = false) l -> filter p l = [].
+Proof. induction 1 as [|x tl Hx _ IH]; cbn [filter]; [reflexivity|]. rewrite Hx. exact IH. Qed.
+
+Lemma asc_keys_ge lo l : asc lo l -> Forall (fun e => lo <= fst e) l.
+Proof.
+  revert lo; induction l as [|e tl IH]; intros lo H; cbn [asc] in *; constructor.
+  - tauto.
+  - destruct H as [H1 H2]. specialize (IH _ H2). eapply Forall_impl; [|exact IH]. cbn beta. intros; lia.
+Qed.
+
+(* the walk over the remaining entries: the packet ends up standing for the
+   statuses so far followed by exactly the received entries below the new
+   start pointer (none skipped), not-received in between *)
+Lemma walk_spec hi : forall ents f nextU syms,
+  fb_inv f syms -> f_next f = nextU mod 65536 -> asc nextU ents -> below hi ents -> hi - nextU <= 65536 ->
+  exists rep,
+    let '(f', next') := mb_walk ents f nextU in
+    Forall2 reports (filter (fun e => (snd e >=? 0) && (fst e <? next')) ents) rep /\
+    fb_inv f' (syms ++ syms_of nextU rep) /\ f_next f' = next' mod 65536 /\
+    nextU <= next' /\ f_base f' = f_base f /\ f_ref f' = f_ref f.
+Proof.
+  induction ents as [|[seq t] tl IH]; intros f nextU syms Hinv Hnext Ha Hb Hhi; cbn [mb_walk].
+  - exists []. cbn [filter syms_of]. rewrite app_nil_r.
+    split; [constructor|]. split; [exact Hinv|]. split; [exact Hnext|]. split; [lia|]. split; reflexivity.
+  - cbn [asc fst] in Ha. destruct Ha as [Ha1 Ha2]. inversion Hb as [|? ? Hb1 Hb2]; subst. cbn [fst] in Hb1.
+    destruct (t >=? 0) eqn:Et.
+    + destruct (fb_add_received f (u16 seq) t) as [f1|] eqn:Eadd.
+      * destruct (fb_add_inv f syms (u16 seq) t f1 Hinv Eadd) as (Hinv1 & _ & Hbase1 & Href1).
+        assert (Hn1 : f_next f1 = (seq + 1) mod 65536).
+        { rewrite (add_next f (u16 seq) t f1 Eadd) by (rewrite Hnext; lia). rewrite Hnext. unfold sub16, u16. lia. }
+        assert (Hgap : sub16 (u16 seq) (f_next f) = seq - nextU) by (rewrite Hnext; unfold sub16, u16; lia).
+        unfold add_syms in Hinv1. rewrite Hgap in Hinv1.
+        set (sym := if (0 <=? round250 (t - f_last f)) && (round250 (t - f_last f) <=? 255) then 1 else 2) in *.
+        destruct (IH f1 (seq + 1) _ Hinv1 Hn1 Ha2 Hb2 ltac:(lia)) as (rep & Hrep).
+        exists ((seq, sym) :: rep). destruct (mb_walk tl f1 (seq + 1)) as [f' next'].
+        destruct Hrep as (HF & Hinv' & Hn' & Hle & Hb' & Hr').
+        cbn [filter fst snd]. rewrite Et. replace (seq <? next') with true by lia. cbn [andb].
+        split; [constructor; [split; [reflexivity|]; unfold sym; destruct (_ && _); auto|exact HF]|].
+        split; [|split; [exact Hn'|]; split; [lia|]; split; congruence].
+        cbn [syms_of fst snd]. rewrite <- app_assoc in Hinv'. cbn [app] in Hinv'.
+        replace (repeat 0 (Z.to_nat (seq - nextU)) ++ sym :: syms_of (seq + 1) rep)
+          with (repeat 0 (Z.to_nat (seq - nextU)) ++ [sym] ++ syms_of (seq + 1) rep) by reflexivity.
+        rewrite <- (app_assoc (repeat 0 (Z.to_nat (seq - nextU))) [sym]) in Hinv'. exact Hinv'.
+      * exists []. cbn [syms_of]. rewrite app_nil_r.
+        rewrite filter_none;
+          [split; [constructor|]; split; [exact Hinv|]; split; [exact Hnext|]; split; [lia|]; split; reflexivity|].
+        constructor; [cbn [fst snd]; replace (seq <? nextU) with false by lia; apply andb_false_r|].
+        pose proof (asc_keys_ge _ _ Ha2) as Hk. eapply Forall_impl; [|exact Hk]. cbn beta. intros e He.
+        replace (fst e <? nextU) with false by lia. apply andb_false_r.
+    + assert (Ha3 : asc nextU tl) by (eapply asc_weaken; [|exact Ha2]; lia).
+      destruct (IH f nextU syms Hinv Hnext Ha3 Hb2 Hhi) as (rep & Hrep).
+      exists rep. destruct (mb_walk tl f nextU) as [f' next'].
+      cbn [filter fst snd]. rewrite Et. cbn [andb]. exact Hrep.
+Qed.
